@@ -215,8 +215,8 @@ Proof. repeat split; try (vm_compute; reflexivity). vm_compute. discriminate. Qe
 
 Lemma guard_diff_nonvacuous :
   guard_diff new_F09b new_F09b = true /\ show_diffs new_F09b new_F09b = false /\
-  guard_diff old_F09b [(p_client, t_a1_nonl); (p_stale, t_a1)] = true /\
-  show_diffs old_F09b [(p_client, t_a1_nonl ++ t_a1); (p_stale, t_a1)] = true.
+  guard_diff old_F09b [(p_client, t_a1 ++ t_a1); (p_stale, t_a1)] = true /\
+  show_diffs old_F09b [(p_client, t_a1 ++ t_a1); (p_stale, t_a1)] = true.
 Proof. repeat split; vm_compute; reflexivity. Qed.
 
 (* ================================================================================================
@@ -268,7 +268,11 @@ Section DedupFacts.
   Proof.
     intros g found G. unfold guard_modes in G.
     apply andb_true_iff in G. destruct G as [G Ge]. apply andb_true_iff in G. destruct G as [Gc Gd].
-    unfold tree_force, tree_temp. rewrite (exceptions_emit_guard _ _ Gd).
+    unfold tree_force, tree_temp. cbv zeta.
+    assert (E : forall f', f' = (if core_inside_out g then [] else found) ->
+                           exceptions_emit g f' = exceptions_emit g []).
+    { intros f' ->. apply exceptions_emit_guard. exact Gd. }
+    rewrite (E _ eq_refl).
     unfold guard_F09c in Gc. apply negb_true_iff in Gc. rewrite Gc.
     unfold guard_F09e in Ge. rewrite !(dedup_ops_nodup _ Ge). reflexivity.
   Qed.
@@ -387,5 +391,5 @@ Proof. repeat split; try (vm_compute; reflexivity). vm_compute. discriminate. Qe
 
 Lemma guard_modes_nonvacuous :
   guard_modes idS g_plain [(s_client, [400])] = true /\ wf_layout idS g_plain = true /\
-  length (tree_force idS g_plain []) = 19%nat.
+  length (tree_force idS g_plain []) = 15%nat.
 Proof. repeat split; vm_compute; reflexivity. Qed.
